@@ -87,6 +87,32 @@ func scanSites(p *Program, rule InventoryRule) []site {
 					if _, isMap := x.X.Type().Underlying().(*types.Map); isMap && rule.Kind == "maprange" {
 						stmtHit, what = true, "range over "+strings.ReplaceAll(x.X.Type().String(), modPath+"/", "")
 					}
+				case *ssa.Store:
+					if rule.Kind == "globalwrites" && !strings.HasPrefix(fn.Name(), "init") {
+						a := x.Addr
+						for i := 0; i < 10; i++ {
+							if fa, ok := a.(*ssa.FieldAddr); ok {
+								a = fa.X
+								continue
+							}
+							if ia, ok := a.(*ssa.IndexAddr); ok {
+								a = ia.X
+								continue
+							}
+							break
+						}
+						if g, ok := a.(*ssa.Global); ok {
+							stmtHit, what = true, "write to package-level variable "+g.Name()
+						}
+					}
+				case *ssa.MapUpdate:
+					if rule.Kind == "globalwrites" && !strings.HasPrefix(fn.Name(), "init") {
+						if u, ok := x.Map.(*ssa.UnOp); ok {
+							if g, ok := u.X.(*ssa.Global); ok {
+								stmtHit, what = true, "update of package-level map "+g.Name()
+							}
+						}
+					}
 				case *ssa.Go:
 					if rule.Kind == "gostmt" {
 						stmtHit, what = true, "go statement"
